@@ -6421,6 +6421,8 @@ class Path(Shape, MutableSequence):
             p += subpath
         self._segments = p._segments
         self._segments[0].start = prepoint
+        self._length = None
+        self._lengths = None
         return self
 
     def subpath(self, index):
@@ -7665,6 +7667,8 @@ class Subpath:
         if isinstance(other, Matrix):
             for e in self:
                 e *= other
+            self._path._length = None
+            self._path._lengths = None
         return self
 
     def __mul__(self, other):
@@ -7796,6 +7800,8 @@ class Subpath:
                 segments[e] = start_segment
             s += 1
             e -= 1
+        self._path._length = None
+        self._path._lengths = None
         start = self.index_to_path_index(start)
         end = self.index_to_path_index(end)
         self._path._validate_connection(start - 1, prefer_second=True)
